@@ -41,7 +41,8 @@ def main(argv=None):
     seed = int(os.environ.get('VERIF_SEED', engine.DEFAULT_SEED))
     if a.pid == 'selftest':
         from dst import selftest
-        return selftest.main(seed)
+        only = os.environ.get('VERIF_SELFTEST_ONLY')
+        return selftest.main(seed, only.split(',') if only else None)
     m = get_machine(a.pid)
     if a.replay:
         return runner.do_replay(m, a.replay)
